@@ -671,7 +671,7 @@ impl Harness for WsSys {
                     2 => WOp::Hijack { t: r.below(n_torrents as u64) as u8, victim: r.below(n_conns as u64) as u8, ev: *r.pick(&[None, Some(3)]) },
                     3 => WOp::SecondPid { t: r.below(n_torrents as u64) as u8 },
                     4 => WOp::BogusAnswer { t: r.below(n_torrents as u64) as u8, to: r.below(n_conns as u64) as u8, oid: r.below(5) as u8 },
-                    5 => WOp::Scr { ts: if r.chance(80) { None } else { Some((0..r.range(1, 4)).map(|_| r.below(n_torrents as u64 + 1) as u8).collect()) } },
+                    5 => WOp::Scr { ts: if r.chance(80) { None } else if r.chance(80) { Some(vec![]) } else { Some((0..r.range(1, 4)).map(|_| r.below(n_torrents as u64 + 1) as u8).collect()) } },
                     6 => WOp::Poll { ms: *r.pick(&[50u32, 300, 1200]) },
                     7 => WOp::Bad { kind: r.below(6) as u8 },
                     8 => WOp::Close,
